@@ -5,7 +5,7 @@
 From Coq Require Import List Arith Bool Lia.
 From Oras Require Import Model.CopyImpl Proofs.CopyImplBase Proofs.CopyImplInv Proofs.CopyImplInv2 Proofs.CopyImplLive
   Proofs.CopyImplDeadlock Proofs.CopyImplFault Proofs.CopyImplTerm Proofs.CopyImplSucc Proofs.CopyImplSucc2
-  Proofs.CopyImplOrder Proofs.CopyImplNoFault Model.CopyImplDst Proofs.CopyImplDst.
+  Proofs.CopyImplOrder Proofs.CopyImplNoFault Model.CopyImplDst Proofs.CopyImplDst Proofs.CopyImplRefine.
 Import ListNotations.
 
 Theorem C04_permits_conserved : forall succ K ext roots s, Reachable succ K ext roots s ->
@@ -233,6 +233,28 @@ Theorem C02_retry_completes_protocol : forall succ K1 ext1 roots1 K2 ext2 roots2
 Proof. exact retry_completes. Qed.
 Print Assumptions C02_retry_completes_protocol.
 
+(* REFINEMENT.  The abstract specification of a copy call (Proofs/CopyImplRefine.v: astep) has the
+   clauses of C02 as its guards: a node is stored only when all its successors are stored, a fault or
+   a cancellation taints the call, the call returns an error only when tainted and nil only when
+   untainted with everything reachable from the roots stored.  Every execution of the protocol LTS
+   with destination - any interleaving, fault placement, cancellation point, and (drun is prefix
+   closed) any prefix - is, on its visible events (dtrace: stores, faults, cancel, the top-level
+   return), a run of that specification ending in (the destination reached, "a fault occurred"). *)
+Theorem C02_refines_abstract_spec_protocol : forall succ K ext roots d0,
+  (forall n m, In m (succ n) -> m < n) -> closed succ d0 ->
+  forall ls x, drun succ (dinit K ext roots d0) ls = Some x ->
+  aruns succ roots (mkA d0 false) (dtrace succ (dinit K ext roots d0) ls) (mkA (d_dst x) (existsb dis_fault ls)).
+Proof. exact refines_abstract_spec. Qed.
+Print Assumptions C02_refines_abstract_spec_protocol.
+
+(* and the abstract specification has the property: closed stays closed, taint and content are kept *)
+Theorem C02_abstract_spec_sound_protocol : forall succ roots a es a', aruns succ roots a es a' ->
+  closed succ (a_dst a) ->
+  closed succ (a_dst a') /\ (a_taint a = true -> a_taint a' = true) /\
+  (forall n, a_dst a n = true -> a_dst a' n = true).
+Proof. exact abstract_spec_sound. Qed.
+Print Assumptions C02_abstract_spec_sound_protocol.
+
 (* ---- the hypotheses are satisfiable: a concrete DAG (4 -> 3,2 ; 3 -> 1,2 ; 2 -> 0,1), complete runs *)
 Definition ex_succ (n : nat) : list nat :=
   match n with 4 => [3; 2] | 3 => [1; 2] | 2 => [0; 1] | _ => [] end.
@@ -285,3 +307,13 @@ Example ex_fault_then_retry :
   | None => False
   end.
 Proof. vm_compute. repeat split; reflexivity. Qed.
+
+(* the visible traces of two executions on destination {0,1}: a push that stores node 2 and then fails
+   (K = 1), and a fault-free call (K = 2) *)
+Example ex_visible_traces :
+  let d0 := dst_of_list [0; 1] in
+  dtrace ex_succ (dinit 1 false [4] d0) (snd (dsched ex_succ dpick_late 400 (dinit 1 false [4] d0) []))
+    = [AStore 2; AFault; ARet true] /\
+  dtrace ex_succ (dinit 2 false [4] d0) (snd (dsched ex_succ dpick_progress 400 (dinit 2 false [4] d0) []))
+    = [AStore 2; AStore 3; AStore 4; ARet false].
+Proof. vm_compute. split; reflexivity. Qed.
